@@ -637,7 +637,7 @@ func (s *sim) minePool() {
 	}
 	v.txs[cbID] = mb.height
 	v.subsidy.Add(v.subsidy, bigInt(int64(s.node.cfg.GetBlockReward(mb.height))))
-	if w := s.labelCoinbase(blk, mb.height, fees); w != "" && mb.selfOK {
+	if w := s.labelCoinbase(blk, mb.height, fees, parent.view.pow); w != "" && mb.selfOK {
 		// the node's own miner broke the issuance rule
 		mb.selfOK, mb.why = false, w
 	}
